@@ -44,6 +44,7 @@ type Job struct {
 	Sub     string   // sub-workload inside vfh
 	Mode    string   // "prod" | "test" (process mode the library sees)
 	Race    bool     // run the -race build
+	Parent  string   // if set: the child is started by a process whose argv[0] ends in /<Parent> (what a program sees when a debugger such as dlv launched it)
 	From    int      // case index range [From,To)
 	To      int      //
 	Args    []string // extra arguments
@@ -89,6 +90,7 @@ type Replay struct {
 	Sub      string          `json:"sub"`
 	Mode     string          `json:"mode"`
 	Race     bool            `json:"race,omitempty"`
+	Parent   string          `json:"started_by,omitempty"`
 	NoInl    bool            `json:"noinline_build,omitempty"`
 	Seed     int64           `json:"seed"`
 	Tier     string          `json:"tier"`
@@ -226,7 +228,7 @@ func main() {
 		}
 		var jobs []Job
 		if replay != nil {
-			jobs = []Job{{Sub: replay.Sub, Mode: replay.Mode, Race: replay.Race, NoInl: replay.NoInl, From: replay.From, To: replay.To, Args: replay.Args, Env: replay.Env, Procs: replay.Procs, Only: replay.Idx, Timeout: 10 * time.Minute}}
+			jobs = []Job{{Sub: replay.Sub, Mode: replay.Mode, Parent: replay.Parent, Race: replay.Race, NoInl: replay.NoInl, From: replay.From, To: replay.To, Args: replay.Args, Env: replay.Env, Procs: replay.Procs, Only: replay.Idx, Timeout: 10 * time.Minute}}
 		} else {
 			jobs = plan.Jobs(tier, seed)
 			for i := range jobs {
@@ -388,6 +390,10 @@ func runJob(j *Job) {
 	cwd := j.base + ".d"
 	os.MkdirAll(cwd, 0o755)
 	cmd := exec.Command(binPath, args...)
+	if j.Parent != "" {
+		// a shell whose own argv[0] reads /usr/local/bin/<Parent> starts the child and waits for it
+		cmd = &exec.Cmd{Path: "/bin/sh", Args: append([]string{"/usr/local/bin/" + j.Parent, "-c", `"$0" "$@"; exit $?`, binPath}, args...)}
+	}
 	cmd.Dir = cwd
 	cmd.Env = []string{"PATH=" + os.Getenv("PATH"), "HOME=" + os.Getenv("HOME"), "VERIF_DIR=" + verifDir}
 	if j.Procs > 0 {
@@ -743,6 +749,7 @@ func report(plan *Plan, agg *Agg, findings []Finding, wall time.Duration, replay
 		r := Replay{Property: prop, Seed: seed, Tier: tier, Idx: v.Idx, Clause: v.Clause, Sig: s, Detail: v.Detail, Case: v.Case}
 		if v.job != nil {
 			r.Sub, r.Mode, r.Race, r.NoInl, r.From, r.To, r.Args, r.Env, r.Procs = v.job.Sub, v.job.Mode, v.job.Race, v.job.NoInl, v.job.From, v.job.To, v.job.Args, v.job.Env, v.job.Procs
+			r.Parent = v.job.Parent
 			if v.Clause == "crash" {
 				r.Stderr = tail(v.job.base+".stderr", 4000)
 			}
